@@ -10,6 +10,7 @@ def main():
             print("forbidden constructs:", bad)
         import subprocess, sys as _s
         subprocess.run([_s.executable, core.VERIF + '/tools/rs2v/cmdtables.py'])
+        subprocess.run([_s.executable, core.VERIF + '/tools/rs2v/regiontables.py'])
         core.coq_makefile()
         rc, out = core.sh(["timeout", "7000", "make", "-j%d" % core.NCPU], cwd=core.COQ, timeout=7100)
         print(out[-3000:])
